@@ -72,3 +72,23 @@ func c08Stream(maxSize int, withRsrc bool) {
 func VH_C08_DownloadStream_sym_quick()             { c08Stream(600, false) }
 func VH_C08_DownloadStream_sym_thorough()          { c08Stream(9000, false) }
 func VH_C08_DownloadStreamWithResourceFork_sym() { c08Stream(5, true) }
+
+// The transfer size the request handler announces (header + data for a file without resource fork) is the number of
+// bytes the transfer connection then carries before the resource section - also for a name with a non-ASCII
+// character (which has different lengths on disk and on the wire).
+func VH_C08_AnnouncedSizeIsWhatIsSent_sym() {
+	vUnroll(300)
+	names := []string{"/r/docs/target.txt", "/r/docs/caf\xc3\xa9.txt"}
+	path := names[vChoice("name", 2)]
+	data := vBytesN("data", 5)
+	st := &vStore{names: []string{path}, data: [][]byte{data}}
+	fw, err := NewFileWrapper(st, path, 0)
+	vAssert("wrapper_ok", err == nil)
+	ts := fw.Ffo.TransferSize(0)
+	announced := int(ts[0])<<24 | int(ts[1])<<16 | int(ts[2])<<8 | int(ts[3])
+	w := &vBufW{}
+	ft := &FileTransfer{bytesSentCounter: &WriteCounter{}}
+	err = DownloadHandler(w, path, ft, st, vLogger(), true)
+	vAssert("download_ok", err == nil)
+	vAssert("announced_transfer_size_is_what_is_sent", len(w.b)-16 == announced)
+}
